@@ -426,7 +426,23 @@ def e_coupling(p):
                 if lm == "max":
                     ca.symmetrize_by_absmax(r[0], r[1])
             except Exception:   # noqa
-                pass
+                continue
+            if lm != "max":
+                continue
+            #  caller-supplied matrices smaller than N x N (a row short, a
+            #  column short, a node subset): rejecting them is fine, reading
+            #  or writing behind them is not
+            for cut in (lambda m: m[:-1], lambda m: m[:, :-1],
+                        lambda m: m[:-1, :-1], lambda m: m[:1, :1]):
+                for which_small in (0, 1, 2):
+                    S = np.ascontiguousarray(
+                        cut(r[0]) if which_small != 1 else r[0]).copy()
+                    L = np.ascontiguousarray(
+                        cut(r[1]) if which_small != 0 else r[1]).copy()
+                    try:
+                        ca.symmetrize_by_absmax(S, L)
+                    except Exception:   # noqa
+                        pass
     elif which == "mi":
         for lm in ("max", "all"):
             try:
